@@ -72,7 +72,8 @@ func startNode(fs *crashfs.FS, bcfg map[string]string) (n *node, err error) {
 	cl, cerr := kgo.NewClient(
 		kgo.SeedBrokers("127.0.0.1:9092"),
 		kgo.Dialer(vn.DialContext),
-		kgo.MetadataMinAge(time.Hour), kgo.MetadataMaxAge(2*time.Hour),
+		kgo.MetadataMinAge(30*time.Minute), kgo.MetadataMaxAge(time.Hour),
+		kgo.DisableClientMetrics(), // no KIP-714 telemetry push (gzip) on every client Close
 	)
 	if cerr != nil {
 		c.Close()
@@ -346,6 +347,9 @@ func (n *node) offsetFetch(group, topic string, id [16]byte, part int32) (v comm
 			return v, false, infraf("OffsetFetch: %d groups in response", len(resp.Groups))
 		}
 		rg := resp.Groups[0]
+		if rg.ErrorCode == 69 { // GROUP_ID_NOT_FOUND: the group has no state at all
+			return v, false, nil
+		}
 		if rg.ErrorCode != 0 {
 			return v, false, fmt.Errorf("OffsetFetch group %s: error code %d", group, rg.ErrorCode)
 		}
@@ -358,6 +362,9 @@ func (n *node) offsetFetch(group, topic string, id [16]byte, part int32) (v comm
 		p := rg.Topics[0].Partitions[0]
 		off, le, md, code = p.Offset, p.LeaderEpoch, p.Metadata, p.ErrorCode
 	} else {
+		if resp.ErrorCode == 69 {
+			return v, false, nil
+		}
 		if resp.ErrorCode != 0 {
 			return v, false, fmt.Errorf("OffsetFetch group %s: error code %d", group, resp.ErrorCode)
 		}
